@@ -40,6 +40,64 @@ def in_range(v):
         return False
 
 
+def validator_probes(ctx, res, ops, impl):
+    """appends driver operations / implementation outputs and records violations"""
+    rng = ctx.rng
+    # (V) the schedule as the validator enforces it: the real validate_coinbase_transaction_in_coinstate on a fee-less
+    # block at height h on top of a stored parent of height h-1, claiming exactly the scheduled amount (must pass), one
+    # sashimi more (must fail) and the previous era's amount (must fail at the first block of an era)
+    from skepticoin import consensus
+    from skepticoin.coinstate import CoinState
+    from skepticoin.datatypes import (Block, BlockHeader, BlockSummary, PowEvidence, Transaction, Input, Output,
+                                      OutputReference)
+    from skepticoin.signing import SECP256k1PublicKey, CoinbaseData
+    from .kit import hx
+    miner = SECP256k1PublicKey(bytes(rng.getrandbits(8) for _ in range(64)))
+
+    def mk(height, prev, value):
+        cb = Transaction([Input(OutputReference(b"\x00" * 32, 0), CoinbaseData(height, b"c16"))], [Output(value, miner)])
+        sm = BlockSummary(height, prev, consensus.calc_merkle_root_hash([cb]), 1_700_000_000 + height % 1000,
+                          b"\xff" * 32, 0)
+        return Block(BlockHeader(sm, PowEvidence(b"\x00" * 32, b"\x00" * 32, b"\x00" * 32)), [cb])
+
+    vh = {1, 2, 3, 2 ** 32 - 1}
+    for k in range(1, ctx.scale(70, 4090)):
+        for dlt in (-1, 0, 1):
+            if 1 <= k * 1_050_000 + dlt < 2 ** 32:
+                vh.add(k * 1_050_000 + dlt)
+    vh |= {rng.randrange(1, 2 ** 32) for _ in range(ctx.scale(50, 400))}
+    v_reported = 0
+    for h in sorted(vh):
+        parent = mk(h - 1, b"\x00" * 32, 1)
+        st = CoinState.empty().add_block_no_validation(parent)
+        ops.append("new v")
+        impl.append("ok")
+        ops.append("addnv v v " + hx(parent.serialize()))
+        impl.append("ok")
+        claims = {spec(h): True, spec(h) + 1: False}
+        if spec(h - 1) > spec(h):
+            claims[spec(h - 1)] = False
+        for value, allowed in claims.items():
+            if value <= 0:
+                continue                      # a zero-valued output is refused elsewhere (range check), not here
+            blk = mk(h, parent.hash(), value)
+            try:
+                consensus.validate_coinbase_transaction_in_coinstate(blk.transactions[0], blk, st)
+                got = True
+            except consensus.ValidationError:
+                got = False
+            ops.append("cbchk v " + hx(blk.serialize()))
+            impl.append("ok" if got else "rej validation")
+            res.case(("validator", h, value), nontrivial=True)
+            res.count("validator_probe:" + ("allowed" if allowed else "excess"))
+            if got != allowed and v_reported < 5:
+                v_reported += 1
+                res.violations.append({"kind": "the validator %s a fee-less coinbase of %d sashimi at height %d; the schedule "
+                                               "allows %d there" % ("accepts" if got else "rejects", value, h, spec(h)),
+                                       "height": h, "claimed": value, "block": blk.serialize().hex(),
+                                       "parent": parent.serialize().hex()})
+
+
 def run(ctx):
     res = kit.Result()
     rng = ctx.rng
@@ -110,59 +168,7 @@ def run(ctx):
             res.violations.append({"kind": "subsidy increases with height", "height": h, "got": vals[k],
                                    "lower_height": hs[k - 1], "there": vals[k - 1]})
     res.count("heights_vs_model", len(hs))
-    # (V) the schedule as the validator enforces it: the real validate_coinbase_transaction_in_coinstate on a fee-less
-    # block at height h on top of a stored parent of height h-1, claiming exactly the scheduled amount (must pass), one
-    # sashimi more (must fail) and the previous era's amount (must fail at the first block of an era)
-    from skepticoin import consensus
-    from skepticoin.coinstate import CoinState
-    from skepticoin.datatypes import (Block, BlockHeader, BlockSummary, PowEvidence, Transaction, Input, Output,
-                                      OutputReference)
-    from skepticoin.signing import SECP256k1PublicKey, CoinbaseData
-    from .kit import hx
-    miner = SECP256k1PublicKey(bytes(rng.getrandbits(8) for _ in range(64)))
-
-    def mk(height, prev, value):
-        cb = Transaction([Input(OutputReference(b"\x00" * 32, 0), CoinbaseData(height, b"c16"))], [Output(value, miner)])
-        sm = BlockSummary(height, prev, consensus.calc_merkle_root_hash([cb]), 1_700_000_000 + height % 1000,
-                          b"\xff" * 32, 0)
-        return Block(BlockHeader(sm, PowEvidence(b"\x00" * 32, b"\x00" * 32, b"\x00" * 32)), [cb])
-
-    vh = {1, 2, 3, 2 ** 32 - 1}
-    for k in range(1, ctx.scale(70, 4090)):
-        for dlt in (-1, 0, 1):
-            if 1 <= k * 1_050_000 + dlt < 2 ** 32:
-                vh.add(k * 1_050_000 + dlt)
-    vh |= {rng.randrange(1, 2 ** 32) for _ in range(ctx.scale(50, 400))}
-    v_reported = 0
-    for h in sorted(vh):
-        parent = mk(h - 1, b"\x00" * 32, 1)
-        st = CoinState.empty().add_block_no_validation(parent)
-        ops.append("new v")
-        impl.append("ok")
-        ops.append("addnv v v " + hx(parent.serialize()))
-        impl.append("ok")
-        claims = {spec(h): True, spec(h) + 1: False}
-        if spec(h - 1) > spec(h):
-            claims[spec(h - 1)] = False
-        for value, allowed in claims.items():
-            if value <= 0:
-                continue                      # a zero-valued output is refused elsewhere (range check), not here
-            blk = mk(h, parent.hash(), value)
-            try:
-                consensus.validate_coinbase_transaction_in_coinstate(blk.transactions[0], blk, st)
-                got = True
-            except consensus.ValidationError:
-                got = False
-            ops.append("cbchk v " + hx(blk.serialize()))
-            impl.append("ok" if got else "rej validation")
-            res.case(("validator", h, value), nontrivial=True)
-            res.count("validator_probe:" + ("allowed" if allowed else "excess"))
-            if got != allowed and v_reported < 5:
-                v_reported += 1
-                res.violations.append({"kind": "the validator %s a fee-less coinbase of %d sashimi at height %d; the schedule "
-                                               "allows %d there" % ("accepts" if got else "rejects", value, h, spec(h)),
-                                       "height": h, "claimed": value, "block": blk.serialize().hex(),
-                                       "parent": parent.serialize().hex()})
+    validator_probes(ctx, res, ops, impl)
     model = ctx.driver.ask(ops)
     kit.compare(res, ops, impl, model)
     res.sample({"op": "subsidy 1050000", "impl": str(get_block_subsidy(1050000))})
